@@ -670,15 +670,20 @@ def _evaluate(ctx, prop, cases, jobs, driver_ok, known, search=False):
             ctx.broken.append({'kind': 'correspondence', 'name': '%s model vs implementation' % prop.id,
                                'detail': d})
             ctx.coverage['first_disagreement'] = {'case': c, 'impl': io, 'model': mo}
+    abnormal = isinstance(io, dict) and (io.get('timeout') or io.get('impl_exception'))
     key = json.dumps(c, sort_keys=True)
-    if key not in seen:
-      seen.add(key)
-      if prop.nontrivial(c, io):
-        stats['distinct_nontrivial'] += 1
-    for h in prop.describe(c, io):
-      stats['histogram'][h] = stats['histogram'].get(h, 0) + 1
-    if len(stats['samples']) < 3 and prop.nontrivial(c, io):
-      stats['samples'].append({'case': c, 'impl': io, 'model': mo})
+    if not abnormal:
+      if key not in seen:
+        seen.add(key)
+        if prop.nontrivial(c, io):
+          stats['distinct_nontrivial'] += 1
+      for h in prop.describe(c, io):
+        stats['histogram'][h] = stats['histogram'].get(h, 0) + 1
+      if len(stats['samples']) < 3 and prop.nontrivial(c, io):
+        stats['samples'].append({'case': c, 'impl': io, 'model': mo})
+    else:
+      stats['histogram']['abnormal:' + ('timeout' if io.get('timeout') else io['impl_exception'])] = \
+          stats['histogram'].get('abnormal:' + ('timeout' if io.get('timeout') else io['impl_exception']), 0) + 1
     if fail:
       matched = [f for f in known if signature_matches(f, fail['signature'])]
       if matched:
